@@ -715,7 +715,7 @@ func calAndSetShortCircuit(e *Expr) {
 
 func calAndSetShortCircuitForRCO(e *Expr) {
 	for i, n := range e.nodes {
-		p, _ := parentNode(e, int16(i))
+		p, pIdx := parentNode(e, int16(i))
 		switch {
 		case p == nil:
 			continue
@@ -723,6 +723,10 @@ func calAndSetShortCircuitForRCO(e *Expr) {
 			n.flag |= andOp
 		case isOrOpNode(p):
 			n.flag |= orOp
+		case p.getNodeType() == cond && int16(i) > pIdx:
+			// the value of a branch is the value of the whole `if`,
+			// so it decides the enclosing and/or just like the `if` does
+			n.flag |= p.flag & parentOpMask
 		}
 	}
 }
